@@ -91,7 +91,7 @@ def make_problem(rng, cmode=None, amode=None, int_y=False, empty_rows=False, nea
         k = rng.randint(1, nS)
         cand = rng.sample(range(nS), k)
         if amode == "mat":
-            cand = sorted(cand)          # rows of the matrix refer to the validated (sorted) index array
+            pass                          # any order: row i of the matrix belongs to candidates[i] (repaired in 18267286)
         elif rng.random() < 0.3:
             cand = cand + [rng.choice(cand) for _ in range(rng.randint(1, 2))]      # duplicates are removed by check_indices
     elif cmode == "feat":
@@ -202,6 +202,16 @@ def unl_matrix(prob):
     return [[v is None for v in row] for row in prob["y"]]
 
 
+def aligned_matrix(prob):
+    """rows of a Boolean `annotators` matrix in the order of the validated (sorted, unique) index candidates: row i of the
+    caller's matrix belongs to the caller's candidates[i]"""
+    M = prob["annotators"]
+    if prob["cmode"] != "idx":
+        return M
+    cand = list(prob["candidates"])
+    return [M[cand.index(s)] for s in sorted(set(cand))]
+
+
 def avail_pairs(prob):
     """The available pairs *as defined by the arguments* (independent of the model and the code),
     in the index space of the output, and the number of output rows."""
@@ -221,7 +231,7 @@ def avail_pairs(prob):
             elif am == "idx":
                 ok = j in prob["annotators"]
             else:
-                ok = bool(prob["annotators"][pos][j])
+                ok = bool(aligned_matrix(prob)[pos][j])
             if ok:
                 pairs.add((s, j))
     return pairs, n_out
@@ -248,7 +258,7 @@ def spec_tokens(prob):
         a = sorted(set(prob["annotators"]))
         s += f" I {len(a)} " + " ".join(map(str, a))
     else:
-        M = prob["annotators"]
+        M = aligned_matrix(prob)
         s += f" M {len(M)} {m} {bits(M)}"
     return " ".join(s.split())
 
